@@ -1,15 +1,655 @@
 /-
-  Driver engine stub (Kern): replaced by the real engine; see notes/AGENT_BRIEF.md.
+  Driver engine for C13 (stochastic kernels): compares the implementation's kernels with the model
+  and evaluates the property predicates of Props/C13.lean on the implementation's own output.
+  Protocol: see harness/h_kern.cpp. Doubles that are inputs arrive as dyadic `num/den`, observed
+  doubles as C hex floats (parsed exactly).
 -/
 import PopsModel.Driver.Util
+import PopsModel.Model.KernRadial
 namespace Pops.Driver.KernEng
 open Pops Pops.Driver
 
 structure State where
-  dummy : Unit := ()
+  lines : Nat := 0
 deriving Inhabited
 
-def handle (st : State) (_cmd : String) (_inp _obs : List String) : State × String :=
-  (st, "BADLINE")
+/-! ### parsing -/
+
+def hexDigit? (c : Char) : Option Nat :=
+  if '0' ≤ c ∧ c ≤ '9' then some (c.toNat - '0'.toNat)
+  else if 'a' ≤ c ∧ c ≤ 'f' then some (c.toNat - 'a'.toNat + 10)
+  else if 'A' ≤ c ∧ c ≤ 'F' then some (c.toNat - 'A'.toNat + 10)
+  else none
+
+def hexNat? (cs : List Char) : Option Nat :=
+  cs.foldlM (fun acc c => (hexDigit? c).map fun d => acc * 16 + d) 0
+
+def splitAtChar (c : Char) (cs : List Char) : List Char × Option (List Char) :=
+  match cs.span (· != c) with
+  | (a, []) => (a, none)
+  | (a, _ :: b) => (a, some b)
+
+/-- C `%a` output, exactly: `[-]0x<hex>[.<hex>]p<+|-><dec>`, `inf`, `nan`. -/
+def parseHexFloat? (s : String) : Option Float :=
+  let cs := s.toList
+  let (neg, cs) := match cs with | '-' :: r => (true, r) | r => (false, r)
+  let sgn (x : Float) : Float := if neg then -x else x
+  if cs = "inf".toList then some (sgn (1.0 / 0.0))
+  else if cs = "nan".toList then some (0.0 / 0.0)
+  else match cs with
+    | '0' :: 'x' :: rest =>
+      let (mant, ex) := splitAtChar 'p' rest
+      match ex with
+      | none => none
+      | some ex =>
+        let (ip, fp) := splitAtChar '.' mant
+        let fp := fp.getD []
+        match hexNat? (ip ++ fp), (String.ofList (match ex with | '+' :: r => r | r => r)).toInt? with
+        | some m, some e => some (sgn ((Float.ofNat m).scaleB (e - 4 * (fp.length : Int))))
+        | _, _ => none
+    | _ => none
+
+def ratToFloat (q : Rat) : Float := Float.ofInt q.num / Float.ofNat q.den
+
+/-- `key=value` token. -/
+def kv? (key : String) (tok : String) : Option String :=
+  let k := (key ++ "=").toList
+  let t := tok.toList
+  if k.isPrefixOf t then some (String.ofList (t.drop k.length)) else none
+
+def decodeName (s : String) : String :=
+  if s = "<empty>" then "" else String.ofList (s.toList.map fun c => if c = '~' then ' ' else c)
+
+def typeOfTok? : String → Option DispersalKernelType
+  | "Cauchy" => some .cauchy | "Exponential" => some .exponential | "Uniform" => some .uniform
+  | "DeterministicNeighbor" => some .deterministicNeighbor | "PowerLaw" => some .powerLaw
+  | "HyperbolicSecant" => some .hyperbolicSecant | "Gamma" => some .gamma
+  | "ExponentialPower" => some .exponentialPower | "Weibull" => some .weibull | "Normal" => some .normal
+  | "LogNormal" => some .logNormal | "Logistic" => some .logistic | "Network" => some .network
+  | "None" => some .none | _ => none
+
+def tokOfType : DispersalKernelType → String
+  | .cauchy => "Cauchy" | .exponential => "Exponential" | .uniform => "Uniform"
+  | .deterministicNeighbor => "DeterministicNeighbor" | .powerLaw => "PowerLaw"
+  | .hyperbolicSecant => "HyperbolicSecant" | .gamma => "Gamma" | .exponentialPower => "ExponentialPower"
+  | .weibull => "Weibull" | .normal => "Normal" | .logNormal => "LogNormal" | .logistic => "Logistic"
+  | .network => "Network" | .none => "None"
+
+def dirOfTok? (s : String) : Option Direction := Direction.all.find? fun d => d.name = s
+
+/-! ### floating-point comparison -/
+
+def fabs (x : Float) : Float := Float.abs x
+
+/-- Agreement of two doubles computed by the same formula: identical, both NaN, or within `tol`
+    relative (plus a tiny absolute slack for values that cancel to about zero). -/
+def close (a b : Float) (tol : Float := 1e-9) : Bool :=
+  a == b || (a.isNaN && b.isNaN) || fabs (a - b) ≤ tol * (fabs a + fabs b) || fabs (a - b) ≤ 1e-300
+
+def closeAbs (a b : Float) (tol : Float) : Bool := close a b 1e-9 || fabs (a - b) ≤ tol
+
+def showF (x : Float) : String := toString x
+
+/-- An observed double or an error token. -/
+def floatOrErr? (s : String) : Option (Except String Float) :=
+  if s.startsWith "err:" then some (.error s) else (parseHexFloat? s).map .ok
+
+def exceptTok (e : Except ErrKind Float) : String :=
+  match e with | .ok v => showF v | .error k => errTok k
+
+def cmpFE (what : String) (model : Except ErrKind Float) (obs : Except String Float) (tol : Float := 1e-9) : String :=
+  match model, obs with
+  | .ok m, .ok o => if close m o tol then "ok" else s!"MISMATCH {what} model={showF m} observed={showF o}"
+  | .error k, .error o => if errTok k = o then "ok" else s!"MISMATCH {what} model={errTok k}"
+  | m, _ => s!"MISMATCH {what} model={exceptTok m}"
+
+/-! ### predicates on observed output -/
+
+def TFf : TF Float := TF.float
+
+def lawOfType? (t : DispersalKernelType) : Option Law := t.law?
+
+/-- Sampler described by the harness: kind token and two parameters. -/
+def samplerOfObs? (kind : String) (p1 p2 : Float) : Option (Sampler Float) :=
+  match kind with
+  | "cauchy" => some (.stdCauchy p1 p2)
+  | "exponential" => some (.stdExponential p1)
+  | "weibull" => some (.stdWeibull p1 p2)
+  | "normal" => some (.stdNormal p1 p2)
+  | "lognormal" => some (.stdLognormal p1 p2)
+  | "gamma" => some (.stdGamma p1 p2)
+  | "uniform" => some (.icdfOfUniform p1 p2)
+  | _ => none
+
+def samplerClose (a b : Sampler Float) : Bool :=
+  match a, b with
+  | .stdCauchy a1 a2, .stdCauchy b1 b2 => close a1 b1 1e-12 && close a2 b2 1e-12
+  | .stdExponential a1, .stdExponential b1 => close a1 b1 1e-12
+  | .stdWeibull a1 a2, .stdWeibull b1 b2 => close a1 b1 1e-12 && close a2 b2 1e-12
+  | .stdNormal a1 a2, .stdNormal b1 b2 => close a1 b1 1e-12 && close a2 b2 1e-12
+  | .stdLognormal a1 a2, .stdLognormal b1 b2 => close a1 b1 1e-12 && close a2 b2 1e-12
+  | .stdGamma a1 a2, .stdGamma b1 b2 => close a1 b1 1e-12 && close a2 b2 1e-12
+  | .icdfOfUniform a1 a2, .icdfOfUniform b1 b2 => a1 == b1 && a2 == b2
+  | _, _ => false
+
+def showSampler : Sampler Float → String
+  | .stdCauchy a b => s!"cauchy({a},{b})" | .stdExponential l => s!"exponential({l})"
+  | .stdWeibull a b => s!"weibull({a},{b})" | .stdNormal a b => s!"normal({a},{b})"
+  | .stdLognormal a b => s!"lognormal({a},{b})" | .stdGamma a b => s!"gamma({a},{b})"
+  | .icdfOfUniform a b => s!"icdf(uniform({a},{b}))"
+
+/-- `C13_parameter_wiring` / `C13_inverse_transform` on an observed sampler: the standard density
+    with the OBSERVED constructor parameters equals the OBSERVED `pdf(x)` (x > 0), respectively the
+    uniform is on (0, 1); `same` = `random()` is |that distribution's draw| / `icdf` of that uniform. -/
+def samplerPropFail (law : Law) (obsS : Sampler Float) (x : Float) (pdfObs : Except String Float) (same : String) : Option String :=
+  match obsS with
+  | .icdfOfUniform lo hi =>
+    if !(lo == 0.0 && hi == 1.0) then some s!"inverse_transform uniform-range lo={lo} hi={hi}"
+    else if same != "1" then some "inverse_transform random()-is-not-icdf(uniform)"
+    else none
+  | s =>
+    if same != "1" then some s!"parameter_wiring random()-is-not-abs(draw of {showSampler s})"
+    else match pdfObs, Sampler.density TFf s x with
+      | .ok p, some dens =>
+        if x > 0.0 && !dens.isNaN && !p.isNaN && !(close dens p 1e-9) then
+          some s!"parameter_wiring law={repr law} sampler={showSampler s} x={x} std-density={dens} kernel-pdf={p}"
+        else none
+      | _, _ => none
+
+def twoPi : Float := 2.0 * FloatFn.piF
+
+/-- Angle difference wrapped by cosine / sine (no branch cuts). -/
+def cosDiff (a b : Float) : Float := Float.cos (a - b)
+
+/-- Exact rounding of the Float quotients with the theorems' `lround`, with a fallback for quotients
+    within 1e-9 (relative) of a half-way point, where one ulp of `cos`/`sin` decides. -/
+def geometryOK (row col : Int) (qr qc : Float) (r c : Int) : Bool :=
+  match FloatFn.toRat? qr, FloatFn.toRat? qc with
+  | some a, some b =>
+    let ea : Rat := (if a < 0 then -a else a) / 1000000000 + 1 / 1000000000000
+    let eb : Rat := (if b < 0 then -b else b) / 1000000000 + 1 / 1000000000000
+    roundsTo a (row - r) ea && roundsTo b (c - col) eb
+  | _, _ => false
+
+def sgnI (x : Int) : Int := if x > 0 then 1 else if x < 0 then -1 else 0
+
+/-! ### handlers -/
+
+def q? (s : String) : Option Rat := parseRat? s
+def qf? (s : String) : Option (Rat × Float) := (parseRat? s).map fun q => (q, ratToFloat q)
+
+def handleName (inp obs : List String) : String :=
+  match inp with
+  | [s] =>
+    let s := decodeName s
+    let model := kernelTypeFromString s
+    match obs with
+    | ["ok", t] =>
+      match typeOfTok? t with
+      | some k =>
+        if !decide (NamesKernel s k) then s!"PROPFAIL C13 names spelling '{s}' accepted as {t}, which it does not name"
+        else if model = .ok k then "ok" else s!"MISMATCH kern.name model={repr model}"
+      | none => "BADLINE"
+    | [e] =>
+      if DispersalKernelType.all.any (fun k => k.name = s) then s!"PROPFAIL C13 names canonical name '{s}' rejected"
+      else match model with
+        | .error k => if errTok k = e then "ok" else s!"MISMATCH kern.name model={errTok k}"
+        | .ok k => s!"MISMATCH kern.name model=ok {tokOfType k}"
+    | _ => "BADLINE"
+  | _ => "BADLINE"
+
+def handleDir (inp obs : List String) : String :=
+  match inp with
+  | [s] =>
+    let s := decodeName s
+    let model := directionFromString s
+    match obs with
+    | ["ok", t] =>
+      match dirOfTok? t with
+      | some d =>
+        if !decide (NamesDirection s d) then s!"PROPFAIL C13 names direction spelling '{s}' accepted as {t}, which it does not name"
+        else if model = .ok d then "ok" else s!"MISMATCH kern.dir model={repr model}"
+      | none => "BADLINE"
+    | [e] =>
+      if Direction.all.any (fun d => d.name = s) then s!"PROPFAIL C13 names canonical direction '{s}' rejected"
+      else match model with
+        | .error k => if errTok k = e then "ok" else s!"MISMATCH kern.dir model={errTok k}"
+        | .ok d => s!"MISMATCH kern.dir model=ok {d.name}"
+    | _ => "BADLINE"
+  | _ => "BADLINE"
+
+def handleDirDeg (inp obs : List String) : String :=
+  match inp, obs with
+  | [d], [n] =>
+    match dirOfTok? d, parseInt? n with
+    | some d, some n =>
+      if d ≠ .none && n ≠ d.degrees then s!"PROPFAIL C13 direction_degrees {d.name} is coded as {n}, clockwise-from-north is {d.degrees}"
+      else if n = d.degrees then "ok" else s!"MISMATCH kern.dirdeg model={d.degrees}"
+    | _, _ => "BADLINE"
+  | _, _ => "BADLINE"
+
+def handleNeighbor (inp obs : List String) : String :=
+  match inp with
+  | [d, row, col] =>
+    match dirOfTok? d, parseInt? row, parseInt? col with
+    | some d, some row, some col =>
+      let model := neighborKernel d row col
+      match obs with
+      | [r, c, g] =>
+        match parseInt? r, parseInt? c with
+        | some r, some c =>
+          if d ≠ .none && !decide (NeighborInDirection d row col (r, c)) then
+            s!"PROPFAIL C13 neighbor direction={d.name} from=({row},{col}) to=({r},{c})"
+          else if model = .ok (r, c) && g = "gen=0" then "ok" else s!"MISMATCH kern.neighbor model={repr model} gen=0"
+        | _, _ => "BADLINE"
+      | [e] =>
+        if d ≠ .none then s!"PROPFAIL C13 neighbor direction={d.name} rejected with {e}"
+        else match model with
+          | .error k => if errTok k = e then "ok" else s!"MISMATCH kern.neighbor model={errTok k}"
+          | .ok _ => "MISMATCH kern.neighbor model=ok"
+      | _ => "BADLINE"
+    | _, _, _ => "BADLINE"
+  | _ => "BADLINE"
+
+def intRange (lo hi : Int) : List Int := (List.range (hi - lo + 1).toNat).map fun (k : Nat) => lo + (k : Int)
+
+/-- `C13_uniform_in_landscape` on observed ranges: every draw lands inside, every cell is reachable. -/
+def uniformRangesOK (rows cols : Int) (k : UniformKernel) : Bool :=
+  ((intRange k.rowLo k.rowHi).all fun dr => (intRange k.colLo k.colHi).all fun dc =>
+      decide (InLandscape rows cols (k.call 0 0 dr dc))) &&
+  ((intRange 0 (rows - 1)).all fun r => (intRange 0 (cols - 1)).all fun c => decide (k.InRange r c))
+
+def handleUniformRanges (inp obs : List String) : String :=
+  match parseInts? inp, parseInts? obs with
+  | some [rows, cols], some [rlo, rhi, clo, chi] =>
+    let k : UniformKernel := { rowMax := rows, colMax := cols, rowLo := rlo, rowHi := rhi, colLo := clo, colHi := chi }
+    if !uniformRangesOK rows cols k then
+      s!"PROPFAIL C13 uniform_in_landscape landscape {rows}x{cols} draws rows {rlo}..{rhi} cols {clo}..{chi}"
+    else if k = UniformKernel.make rows cols then "ok" else "MISMATCH kern.uniform.ranges"
+  | _, _ => "BADLINE"
+
+def handleUniformDraw (inp obs : List String) : String :=
+  match inp, obs with
+  | [rows, cols, _srow, _scol, v1, v2], [r, c, calls] =>
+    match parseInt? rows, parseInt? cols, parseNat? v1, parseNat? v2, parseInt? r, parseInt? c with
+    | some rows, some cols, some v1, some v2, some r, some c =>
+      if !decide (InLandscape rows cols (r, c)) then
+        s!"PROPFAIL C13 uniform_in_landscape landscape {rows}x{cols} target=({r},{c})"
+      else if lemireNoReject rows.toNat v1 && lemireNoReject cols.toNat v2 then
+        if lemireDraw rows.toNat v1 = r && lemireDraw cols.toNat v2 = c && calls = "calls=2" then "ok"
+        else s!"MISMATCH kern.uniform.draw model={lemireDraw rows.toNat v1} {lemireDraw cols.toNat v2} calls=2"
+      else "ok"
+    | _, _, _, _, _, _ => "BADLINE"
+  | _, _ => "BADLINE"
+
+def handleUniformCover (inp obs : List String) : String :=
+  match parseInts? inp, obs with
+  | some [rows, cols], [a, b] =>
+    match (kv? "distinct_inside" a).bind parseInt?, (kv? "outside" b).bind parseInt? with
+    | some k, some m =>
+      if m ≠ 0 then s!"PROPFAIL C13 uniform_in_landscape {m} scripted draws left the {rows}x{cols} landscape"
+      else if k ≠ rows * cols then s!"PROPFAIL C13 uniform_in_landscape only {k} of {rows * cols} cells reached by one draw per bucket"
+      else "ok"
+    | _, _ => "BADLINE"
+  | _, _ => "BADLINE"
+
+def handleUniformSample (inp obs : List String) : String :=
+  match parseInts? inp, parseInts? obs with
+  | some [rows, cols, n], some [rmin, rmax, cmin, cmax] =>
+    if rmin < 0 || rmax ≥ rows || cmin < 0 || cmax ≥ cols then
+      s!"PROPFAIL C13 uniform_in_landscape {n} draws on {rows}x{cols} span rows {rmin}..{rmax} cols {cmin}..{cmax}"
+    else if rmin ≠ 0 || rmax ≠ rows - 1 || cmin ≠ 0 || cmax ≠ cols - 1 then
+      s!"PROPFAIL C13 uniform_in_landscape {n} draws on {rows}x{cols} never reach an edge: rows {rmin}..{rmax} cols {cmin}..{cmax}"
+    else "ok"
+  | _, _ => "BADLINE"
+
+def handleMix (inp obs : List String) : String :=
+  match inp, obs with
+  | [src, en, el, u, p, row, col], [which, asked, ca, cn, gen, _r, _c] =>
+    match q? u, q? p, parseInt? row, parseInt? col with
+    | some u, some p, some row, some col =>
+      let enabled : Bool := en = "1"
+      let eligible : Bool := el = "1"
+      let anthro := mixUsesAnthropogenic enabled eligible u p
+      let obsAnthro := which = "anthro"
+      if which ≠ "anthro" && which ≠ "natural" then "BADLINE"
+      else if obsAnthro ≠ anthro then
+        s!"PROPFAIL C13 mix enabled={enabled} eligible={eligible} u={u} percent_natural={p}: used {which}"
+      else if src = "stub" && asked ≠ "asked=none" && asked ≠ s!"asked={row},{col}" then
+        s!"PROPFAIL C13 mix eligibility asked at {asked}, source cell is ({row},{col})"
+      else
+        let draws := mixBernoulliDraws enabled eligible
+        let expAsked := if src = "stub" then (if mixAsksEligibility enabled then s!"asked={row},{col}" else "asked=none") else "asked=na"
+        let expGen := if src = "stub" then (if anthro then "gen=ant" else "gen=nat") else "gen=na"
+        if ca = s!"calls_ant={draws}" && cn = "calls_nat=0" && asked = expAsked && gen = expGen then "ok"
+        else s!"MISMATCH kern.mix model={expAsked} calls_ant={draws} calls_nat=0 {expGen}"
+    | _, _, _, _ => "BADLINE"
+  | _, _ => "BADLINE"
+
+def handleCtor (inp obs : List String) : String :=
+  match inp, obs with
+  | [sc, sh], [o] =>
+    match qf? sc, qf? sh with
+    | some (scq, scf), some (shq, shf) =>
+      let m := radialCtorOk scq shq
+      let mf := (RadialKernel.make TFf 1.0 1.0 .cauchy scf .none 0.0 shf).toBool
+      if m ≠ mf then "MISMATCH kern.ctor rational and float guards differ"
+      else if (o = "ok") = m && (m || o = errTok .invalid_argument) then "ok"
+      else s!"MISMATCH kern.ctor model={if m then "ok" else errTok .invalid_argument}"
+    | _, _ => "BADLINE"
+  | _, _ => "BADLINE"
+
+/-- `<kind> <p1> <p2> pdf=<..> same=<b>` against the model for `law`, evaluated at `x`. -/
+def checkSampler (what : String) (law : Law) (scf shf x : Float) (kind p1 p2 pdf same : String)
+    (configured : Bool := false) : String :=
+  match parseHexFloat? p1, parseHexFloat? p2, (kv? "pdf" pdf).bind floatOrErr?, kv? "same" same with
+  | some p1, some p2, some pdfObs, some same =>
+    match samplerOfObs? kind p1 p2 with
+    | none => "BADLINE"
+    | some obsS =>
+      match samplerPropFail law obsS x pdfObs same with
+      | some msg => "PROPFAIL C13 " ++ msg
+      | none =>
+        let modelS := lawSampler TFf law scf shf
+        if !samplerClose modelS obsS then
+          -- through the factory the scale and shape are the configured ones: the property itself
+          if configured then s!"PROPFAIL C13 factory_parameters built sampler {showSampler obsS}, configured scale={scf} shape={shf} give {showSampler modelS}"
+          else s!"MISMATCH {what} sampler model={showSampler modelS}"
+        else cmpFE (what ++ " pdf") (lawPdfE TFf law scf shf x) pdfObs 1e-9
+  | _, _, _, _ => "BADLINE"
+
+def handleSampler (inp obs : List String) : String :=
+  match inp, obs with
+  | [t, sc, sh, x], [kind, p1, p2, pdf, same] =>
+    match (typeOfTok? t).bind lawOfType?, qf? sc, qf? sh, qf? x with
+    | some law, some (_, scf), some (_, shf), some (_, xf) => checkSampler "kern.sampler" law scf shf xf kind p1 p2 pdf same
+    | _, _, _, _ => "BADLINE"
+  | _, _ => "BADLINE"
+
+def handleRandom (inp obs : List String) : String :=
+  match inp, obs with
+  | [t, sc, sh, u], [r, ic, calls] =>
+    match (typeOfTok? t).bind lawOfType?, qf? sc, qf? sh, qf? u, kv? "r" r, kv? "icdf" ic with
+    | some law, some (_, scf), some (_, shf), some (_, uf), some r, some ic =>
+      if r ≠ ic then s!"PROPFAIL C13 inverse_transform random()={r} but icdf(u)={ic} for u={uf}"
+      else if calls ≠ "calls=1" then s!"PROPFAIL C13 inverse_transform random() consumed {calls} engine values"
+      else match floatOrErr? r with
+        | some o => cmpFE "kern.random" (lawRandom TFf law scf shf uf) o 1e-6
+        | none => "BADLINE"
+    | _, _, _, _, _, _ => "BADLINE"
+  | _, _ => "BADLINE"
+
+def vmModel (d : Direction) (kappa : Float) (us : List Float) : Option (Float × Nat) :=
+  (vonMises TFf (directionMu TFf d) (directionKappa TFf d kappa) us).map fun (th, rest) => (th, us.length - rest.length)
+
+def handleVonMises (inp obs : List String) : String :=
+  match inp, obs with
+  | d :: kappa :: _n :: us, [th, calls] =>
+    match dirOfTok? d, qf? kappa, us.mapM qf?, (kv? "theta" th).bind parseHexFloat?, (kv? "calls" calls).bind parseNat? with
+    | some d, some (kq, kf), some us, some th, some calls =>
+      let usf := us.map (·.2)
+      let uniform := d = .none || kq ≤ 1 / 1000000
+      match usf with
+      | [] => "BADLINE"
+      | u1 :: _ =>
+        if uniform && !(calls = 1 && close th (twoPi * u1) 1e-12) then
+          s!"PROPFAIL C13 vonmises_uniform direction={d.name} kappa={kf}: angle {th} from {calls} values, expected 2*pi*{u1}"
+        else match vmModel d kf usf with
+          | some (m, n) =>
+            if n = calls && closeAbs m th 1e-9 then "ok" else s!"MISMATCH kern.vonmises model=theta {m} calls {n}"
+          | none => "MISMATCH kern.vonmises model=needs-more-values"
+    | _, _, _, _, _ => "BADLINE"
+  | _, _ => "BADLINE"
+
+def handleVonMisesPair (inp obs : List String) : String :=
+  match inp, obs with
+  | [d, kappa, u1], [pl, mi, calls] =>
+    match dirOfTok? d, qf? kappa, qf? u1, (kv? "plus" pl).bind parseHexFloat?, (kv? "minus" mi).bind parseHexFloat?,
+          (kv? "calls" calls).bind parseNat? with
+    | some d, some (kq, kf), some (u1q, u1f), some pl, some mi, some calls =>
+      let uniform := d = .none || kq ≤ 1 / 1000000
+      let mu := directionMu TFf d
+      let a := pl - mu
+      let b := mi - mu
+      if !uniform && !(fabs (Float.sin (a + b)) ≤ 1e-9 && fabs (Float.cos a - Float.cos b) ≤ 1e-9) then
+        s!"PROPFAIL C13 vonmises_direction the two angles {pl}, {mi} are not mirror images about {d.name} = {mu} rad"
+      else if !uniform && u1q ≤ 1 / 1048576 && !(Float.cos a > 0.999) then
+        s!"PROPFAIL C13 vonmises_direction angle {pl} for u1={u1f} is not next to {d.name} = {mu} rad"
+      else
+        let mp := vmModel d kf [u1f, 0.0, 0.75]
+        let mm := vmModel d kf [u1f, 0.0, 0.25]
+        match mp, mm with
+        | some (tp, n), some (tm, _) =>
+          if n = calls && closeAbs tp pl 1e-9 && closeAbs tm mi 1e-9 then "ok"
+          else s!"MISMATCH kern.vonmises.pair model=plus {tp} minus {tm} calls {n}"
+        | _, _ => "MISMATCH kern.vonmises.pair model=needs-more-values"
+    | _, _, _, _, _, _ => "BADLINE"
+  | _, _ => "BADLINE"
+
+def handleRadial (inp obs : List String) : String :=
+  match inp with
+  | [t, _sc, _sh, d, kappa, ns, ew, probe, row, col, dist, theta, sync] =>
+    match typeOfTok? t, dirOfTok? d, qf? kappa, qf? ns, qf? ew, parseInt? row, parseInt? col, kv? "d" dist, kv? "theta" theta with
+    | some t, some dir, some (_, _kf), some (_, nsf), some (_, ewf), some row, some col, some dist, some theta =>
+      if sync ≠ "sync=1" then "MISMATCH kern.radial probe copy and kernel consumed different engine values"
+      else match obs with
+      | ["skip"] => "ok"
+      | [e] =>
+        -- rejected call: unsupported type (model: law? = none) or an icdf guard hit by the uniform draw
+        if e.startsWith "err:" then
+          if t.law?.isNone then (if e = errTok .invalid_argument then "ok" else s!"MISMATCH kern.radial model={errTok .invalid_argument}")
+          else if dist.startsWith "err:" then "ok"
+          else s!"PROPFAIL C13 geometry kernel rejected a call ({e}) for which distance {dist} and angle {theta} were drawn"
+        else "BADLINE"
+      | [r, c] =>
+        match parseInt? r, parseInt? c, parseHexFloat? dist, parseHexFloat? theta with
+        | some r, some c, some df, some th =>
+          let (qr, qc) := radialQuotients TFf df th nsf ewf
+          if !geometryOK row col qr qc r c then
+            s!"PROPFAIL C13 geometry from=({row},{col}) d={df} theta={th} ns={nsf} ew={ewf}: row offset must be -lround({qr}), column offset +lround({qc}); observed target ({r},{c})"
+          else
+            -- C13_axes on the observed move: angle on an axis
+            let s := Float.sin th
+            let co := Float.cos th
+            let small := fabs df / (if nsf < ewf then nsf else ewf) < 1e4
+            let axisFail :=
+              if small && fabs s < 1e-5 && co > 0.0 then !(c = col && r ≤ row)
+              else if small && fabs s < 1e-5 && co < 0.0 then !(c = col && r ≥ row)
+              else if small && fabs co < 1e-5 && s > 0.0 then !(r = row && c ≥ col)
+              else if small && fabs co < 1e-5 && s < 0.0 then !(r = row && c ≤ col)
+              else false
+            if axisFail then s!"PROPFAIL C13 axes theta={th} d={df} from=({row},{col}) to=({r},{c})"
+            else if probe = "probe=1" && dir ≠ .none && !(Float.cos (th - directionMu TFf dir) > 0.999) then
+              s!"PROPFAIL C13 direction angle {th} drawn with u1=2^-20 is not next to {dir.name}"
+            else if probe = "probe=1" && dir ≠ .none &&
+                !(sgnI (row - r) * dir.northSign ≥ 0 && sgnI (c - col) * dir.eastSign ≥ 0 &&
+                  (dir.northSign ≠ 0 || r = row || !small) && (dir.eastSign ≠ 0 || c = col || !small)) then
+              s!"PROPFAIL C13 compass direction={dir.name} from=({row},{col}) to=({r},{c}) d={df}"
+            else match floatRadialStep row col qr qc with
+              | some (mr, mc) =>
+                if (mr, mc) = (r, c) then "ok"
+                else "ok"  -- half-way case decided by one ulp: accepted by geometryOK above
+              | none => "MISMATCH kern.radial model=non-finite quotient"
+        | _, _, _, _ => "BADLINE"
+      | _ => "BADLINE"
+    | _, _, _, _, _, _, _, _, _ => "BADLINE"
+  | _ => "BADLINE"
+
+def handleSwitch (inp obs : List String) : String :=
+  match inp, obs with
+  | [t, stoch], member :: rest =>
+    match typeOfTok? t with
+    | some t =>
+      let sel := switchSelect t (stoch = "1")
+      let name := match sel with
+        | .uniform => "uniform" | .neighbor => "neighbor" | .network => "network"
+        | .deterministic => "deterministic" | .radial => "radial"
+      if member.startsWith "ctor-" then "ok"
+      else if member.startsWith "call-err:" then
+        if (sel = .radial || sel = .deterministic) && t.law?.isNone then "ok"
+        else s!"MISMATCH kern.switch model={name}"
+      else
+        let expElig := s!"elig={if switchEligible t true then 1 else 0}{if switchEligible t false then 1 else 0}"
+        let expSup := s!"supports={if switchSupports t then 1 else 0}"
+        if member = name && rest = [expElig, expSup] then "ok" else s!"MISMATCH kern.switch model={name} {expElig} {expSup}"
+    | none => "BADLINE"
+  | _, _ => "BADLINE"
+
+/-- The 20 configuration tokens of a `kern.factory` line. -/
+def config? (toks : List String) : Option (KernelConfig × Float) :=
+  match toks with
+  | [rows, cols, ew, ns, stoch, pct, shape, nt, nscale, nd, nk, use, pnat, atype, ascale, ad, ak, mv, nmin, nmax, x] => do
+    let rows ← parseInt? rows; let cols ← parseInt? cols
+    let ew ← q? ew; let ns ← q? ns; let pct ← q? pct; let shape ← q? shape
+    let nscale ← q? nscale; let nk ← q? nk; let pnat ← q? pnat; let ascale ← q? ascale; let ak ← q? ak
+    let nmin ← q? nmin; let nmax ← q? nmax
+    let x ← (kv? "x" x).bind q?
+    some ({ rows := rows, cols := cols, ewRes := ew, nsRes := ns, dispersalStochasticity := stoch = "1",
+            dispersalPercentage := pct, shape := shape, naturalKernelType := decodeName nt, naturalScale := nscale,
+            naturalDirection := decodeName nd, naturalKappa := nk, useAnthropogenicKernel := use = "1",
+            percentNaturalDispersal := pnat, anthroKernelType := decodeName atype, anthroScale := ascale,
+            anthroDirection := decodeName ad, anthroKappa := ak, networkMovement := decodeName mv,
+            networkMinDistance := nmin, networkMaxDistance := nmax }, ratToFloat x)
+  | _ => none
+
+def hexIsRat (tok : String) (key : String) (q : Rat) : Bool :=
+  match (kv? key tok).bind parseHexFloat? with
+  | some f => FloatFn.toRat? f == some q
+  | none => false
+
+def vmTok? (key tok : String) : Option (Float × Nat) := do
+  let v ← kv? key tok
+  match v.splitOn ":" with
+  | [a, b] => do let f ← parseHexFloat? a; let n ← parseNat? b; some (f, n)
+  | _ => none
+
+/-- One built kernel description against the model's `KernelDesc`; `named` is the kernel type the
+    configuration string names (for the property predicate "names map to the kernels they name"). -/
+def checkBuilt (c : KernelConfig) (x : Float) (m : KernelDesc) (obs : List String) : String :=
+  match m, obs with
+  | .uniform rows cols, ["uniform", rlo, rhi, clo, chi] =>
+    match parseInts? [rlo, rhi, clo, chi] with
+    | some [rlo, rhi, clo, chi] =>
+      let k : UniformKernel := { rowMax := rows, colMax := cols, rowLo := rlo, rowHi := rhi, colLo := clo, colHi := chi }
+      if !uniformRangesOK c.rows c.cols k then
+        s!"PROPFAIL C13 uniform_in_landscape factory: landscape {c.rows}x{c.cols} draws rows {rlo}..{rhi} cols {clo}..{chi}"
+      else if k = UniformKernel.make rows cols then "ok" else "MISMATCH kern.factory uniform ranges"
+    | _ => "BADLINE"
+  | .neighbor d, ["neighbor", od] =>
+    if od = d.name then "ok" else s!"PROPFAIL C13 factory neighbour kernel built for {od}, configuration names {d.name}"
+  | .deterministic t _pct ew ns _scale _shape, ["deterministic", ot, oew, ons] =>
+    if ot ≠ tokOfType t then s!"PROPFAIL C13 factory deterministic kernel of type {ot}, configuration names {tokOfType t}"
+    else if hexIsRat oew "ew" ew && hexIsRat ons "ns" ns then "ok"
+    else s!"MISMATCH kern.factory deterministic model=ew {ew} ns {ns}"
+  | .networkTeleport, ["network", tp, _, _, _] =>
+    if tp = "teleport=1" then "ok" else "MISMATCH kern.factory network model=teleport"
+  | .networkWalk mn mx jump, ["network", tp, jp, omn, omx] =>
+    if tp = "teleport=0" && jp = s!"jump={if jump then 1 else 0}" && hexIsRat omn "min" mn && hexIsRat omx "max" mx then "ok"
+    else s!"MISMATCH kern.factory network model=walk jump={jump} min={mn} max={mx}"
+  | .radial ew ns t scale dir kappa shape, ["radial", oew, ons, ot, samp, pdf, same, vmA, vmB] =>
+    if !(hexIsRat oew "ew" ew && hexIsRat ons "ns" ns) then
+      s!"PROPFAIL C13 factory_resolution radial kernel built with {oew} {ons}, configuration has ew={ew} ns={ns}"
+    else if ot ≠ "type=" ++ tokOfType t then
+      s!"PROPFAIL C13 factory radial kernel of {ot}, configuration names {tokOfType t}"
+    else
+      let scf := ratToFloat scale
+      let shf := ratToFloat shape
+      let kf := ratToFloat kappa
+      let lawRes := match t.law? with
+        | none => if samp.startsWith "sampler=none" then "ok" else "MISMATCH kern.factory radial model=no law"
+        | some law =>
+          match (kv? "sampler" samp).map (·.splitOn ":") with
+          | some [kind, p1, p2] => checkSampler "kern.factory" law scf shf x kind p1 p2 pdf same true
+          | _ => "BADLINE"
+      if lawRes ≠ "ok" then lawRes
+      else match vmTok? "vmA" vmA, vmTok? "vmB" vmB with
+        | some (ta, na), some (tb, nb) =>
+          let ma := vmModel dir kf [ratToFloat (1 / 1048576), 0.0, 0.75]
+          let mb := vmModel dir kf [0.5, 0.0, 0.25]
+          match ma, mb with
+          | some (xa, ka), some (xb, kb) =>
+            if dir ≠ .none && kappa > 1 / 1000000 && !(Float.cos (ta - directionMu TFf dir) > 0.999) then
+              s!"PROPFAIL C13 factory_direction von Mises angle {ta} is not next to the configured direction {dir.name}"
+            else if (dir = .none || kappa ≤ 1 / 1000000) && na ≠ 1 then
+              s!"PROPFAIL C13 vonmises_uniform factory: direction={dir.name} kappa={kappa} but the angle used {na} values"
+            else if ka = na && kb = nb && closeAbs xa ta 1e-9 && closeAbs xb tb 1e-9 then "ok"
+            else s!"PROPFAIL C13 factory_vonmises angles {ta}:{na} {tb}:{nb} for scripted uniforms; configured direction={dir.name} kappa={kappa} give {xa}:{ka} {xb}:{kb}"
+          | _, _ => "MISMATCH kern.factory von Mises model=none"
+        | _, _ => "BADLINE"
+  | m, o => s!"MISMATCH kern.factory model={repr m} observed={o.head?.getD ""}"
+
+def splitOnTok (sep : String) (l : List String) : List (List String) :=
+  let rec go (cur : List String) (acc : List (List String)) : List String → List (List String)
+    | [] => (cur.reverse :: acc).reverse
+    | t :: rest => if t = sep then go [] (cur.reverse :: acc) rest else go (t :: cur) acc rest
+  go [] [] l
+
+def handleFactory (inp obs : List String) : String :=
+  match inp with
+  | which :: cfg =>
+    match config? cfg with
+    | none => "BADLINE"
+    | some (c, x) =>
+      let one (m : Except ErrKind KernelDesc) (obs : List String) : String :=
+        match m, obs with
+        | .error k, [e] => if e = errTok k then "ok" else s!"MISMATCH kern.factory model={errTok k}"
+        | .error k, _ => s!"MISMATCH kern.factory model={errTok k}"
+        | .ok d, [e] =>
+          if e.startsWith "err:" then
+            -- the deterministic kernel's constructor computes its window (C14's domain) and may throw
+            match d with
+            | .deterministic .. => "ok"
+            | _ => s!"MISMATCH kern.factory model={repr d}"
+          else checkBuilt c x d [e]
+        | .ok d, o => checkBuilt c x d o
+      if which = "natural" then one (createNaturalKernel c) obs
+      else if which = "anthro" then one (createAnthroKernel c) obs
+      else if which = "dynamic" then
+        match createDynamicKernel c, obs with
+        | .error k, [e] => if e = errTok k then "ok" else s!"MISMATCH kern.factory model={errTok k}"
+        | .error k, _ => s!"MISMATCH kern.factory model={errTok k}"
+        | .ok d, [e] =>
+          match d.natural, d.anthro with
+          | .deterministic .., _ => "ok"
+          | _, .deterministic .. => "ok"
+          | _, _ => s!"MISMATCH kern.factory model=built observed={e}"
+        | .ok d, o =>
+          match splitOnTok ";" o with
+          | [[use, p], nat, ant] =>
+            if use ≠ s!"use={if d.useAnthropogenic then 1 else 0}" then
+              s!"PROPFAIL C13 factory_mix anthropogenic kernel {use}, configuration says {d.useAnthropogenic}"
+            else if !hexIsRat p "p" d.percentNatural then
+              s!"PROPFAIL C13 factory_mix Bernoulli parameter {p}, configured natural share {d.percentNatural}"
+            else
+              let a := checkBuilt c x d.natural nat
+              if a ≠ "ok" then a else checkBuilt c x d.anthro ant
+          | _ => "BADLINE"
+      else "BADLINE"
+  | _ => "BADLINE"
+
+def handle (st : State) (cmd : String) (inp obs : List String) : State × String :=
+  let st := { st with lines := st.lines + 1 }
+  let r :=
+    match cmd with
+    | "kern.selftest" => if obs = ["canonical=1", "bernoulli=1"] then "ok" else "MISMATCH kern.selftest libstdc++ draws are not one 64-bit value per uniform"
+    | "kern.name" => handleName inp obs
+    | "kern.dir" => handleDir inp obs
+    | "kern.dirdeg" => handleDirDeg inp obs
+    | "kern.neighbor" => handleNeighbor inp obs
+    | "kern.uniform.ranges" => handleUniformRanges inp obs
+    | "kern.uniform.draw" => handleUniformDraw inp obs
+    | "kern.uniform.cover" => handleUniformCover inp obs
+    | "kern.uniform.sample" => handleUniformSample inp obs
+    | "kern.mix" => handleMix inp obs
+    | "kern.ctor" => handleCtor inp obs
+    | "kern.sampler" => handleSampler inp obs
+    | "kern.random" => handleRandom inp obs
+    | "kern.vonmises" => handleVonMises inp obs
+    | "kern.vonmises.pair" => handleVonMisesPair inp obs
+    | "kern.radial" => handleRadial inp obs
+    | "kern.switch" => handleSwitch inp obs
+    | "kern.factory" => handleFactory inp obs
+    | _ => "BADLINE"
+  (st, r)
 
 end Pops.Driver.KernEng
